@@ -199,7 +199,8 @@ def k3_producer_partition(src, n):
         ids = ids[::-1]
     elif order == 2:
         ids = ids[1::2] + ids[0::2]
-    down = src.choice("leaderless", n + 1)  # partition id without leader, or none
+    # partition id without leader, or none (every id for small topics, boundary ids for large ones)
+    down = src.choice("leaderless", n + 1) if n <= 64 else [n, 0, 1, n // 2, n - 1][src.choice("leaderless", 5)]
     parts = [(0, p, (-1 if p == down else 0), [0], [0]) for p in ids]
     md = MetadataResponse_v1([(0, "h", 9092, None)], 0, [(0, "t", False, parts)])
     cluster = ClusterMetadata()
@@ -223,7 +224,7 @@ def k3_producer_partition(src, n):
               got=seen.get("all"))
     src.check(sorted(seen.get("avail", [])) == [p for p in range(n) if p != down],
               "available list is not the set of partitions with a leader")
-    explicit = src.choice("explicit", n)
+    explicit = src.choice("explicit", n) if n <= 64 else [0, 1, n // 2, n - 2, n - 1][src.choice("explicit", 5)]
     r = prod._partition("t", explicit, "k", None, b"x", None)
     src.check(r == explicit, "explicit partition not honoured")
     # the topic's partition count changes (metadata update): the very next record sees the new list
